@@ -42,3 +42,6 @@ func VerifGreaseIndexes() int { return ssl_grease_last_index }
 
 // VerifCurveID returns the negotiated key-exchange group of a connection.
 func VerifCurveID(u *UConn) CurveID { return u.Conn.curveID }
+
+// VerifConnCurveID returns the negotiated key-exchange group of a (server) connection.
+func VerifConnCurveID(c *Conn) CurveID { return c.curveID }
